@@ -109,8 +109,7 @@ Step choose_step(HState const &h, Rng &rng, HOpts const &o){
             if (fam == fam_localp || fam == fam_wavelet) w.push_back({Step::surplus_loc, 6.0});
         }
         if (loaded > 0 && outs > 0 && o.set_coeffs) w.push_back({Step::set_coeffs, 0.5});
-        if ((fam == fam_global || fam == fam_sequence || fam == fam_fourier) && loaded + needed < o.max_points
-            && !(fam == fam_global && h.cfg.custom && loaded == 0)) // see known finding F-custom (update of a custom grid before values are loaded)
+        if ((fam == fam_global || fam == fam_sequence || fam == fam_fourier) && loaded + needed < o.max_points)
             w.push_back({Step::update, 1.5});
         if (o.construction && outs > 0 && (fam != fam_global || nested_global) && loaded + needed < o.max_points
             && h.cfg.conformal.empty()) // the Newton inverse of the conformal map is less accurate than the 1e-12 node matching of loadConstructedPoints (DESIGN.md section 7)
@@ -169,6 +168,7 @@ Step choose_step(HState const &h, Rng &rng, HOpts const &o){
             }
             if (s.type == type_tensor || s.type == type_iptensor || s.type == type_qptensor){ s.aw.clear(); s.depth = std::min(s.depth, cur_depth + 1); } // tensor depth multiplies the weights
             if (is_optimized_sequence(g.getRule())) s.depth = std::min(s.depth, 10);
+            if (h.cfg.custom) s.depth = std::min(s.depth, (s.type == type_level || s.type == type_curved || s.type == type_hyperbolic || s.type == type_tensor) ? 6 : 10); // the table has 8 levels
             if (fam == fam_fourier) s.depth = std::min(s.depth, (s.type == type_tensor || s.type == type_level) ? 4 : 12);
             if (pass_limits) s.limits = gen_limits(rng, dims, cur_depth + 1);
             s.raw_overload = rng.coin(0.3);
@@ -305,6 +305,7 @@ std::string apply_step(TasmanianSparseGrid &g, Step const &s, HState *h){
                     cand = g.getCandidateConstructionPoints(s.type, s.output, s.limits);
                 }
                 if (h && !s.limits.empty()) h->expected_limits = s.limits;
+                if (h && h->on_candidates) h->on_candidates(cand);
                 size_t nc = cand.size() / (size_t) dims;
                 if (nc == 0) break;
                 // deliver a prefix-biased random subset in random order
